@@ -60,6 +60,7 @@ def run(pid, tier, replay=None):
     stats = {"decode_error": 0, "rejected": 0, "accepted": 0, "same_id_different_content_rejected": 0}
     per_chain = max(1, nblocks // nchains)
     for ci in range(nchains):
+        sk.apply_cfg(cfg)
         w = sk.World(cfg, keys, tag=b"t%d" % ci)
         rec = ledger_drv.Recorder(w, 1, full=False, snapshots=False)
         rec.start(w.make_genesis())
@@ -69,6 +70,20 @@ def run(pid, tier, replay=None):
         cs_full = rec.cs
         cand = sorted(rt.stored[1:], key=lambda a: -len(w.by_abs[a].transactions))
         chosen = cand[:per_chain - 1] + cand[-1:]
+        if ci % 2 == 1:
+            # every other chain is validated with a checkpoint table in force (checkpoints at height 0 and at a horizon H on the chain's
+            # main line): the blocks altered are the ones just above the horizon (on the main line and on side branches) and higher ones
+            main = cs_full.by_height_at_head()
+            top = cs_full.head().height
+            if top >= 2:
+                H = rng.randint(1, min(3, top - 1))
+                cfg_k = sk.Cfg(horizon=H, known={0: main[0].hash().hex(), H: main[H].hash().hex()}, **MODEL_CFG)
+                sk.apply_cfg(cfg_k)
+                above = [a for a in rt.stored[1:] if w.by_abs[a].height > H]
+                first = [a for a in above if w.by_abs[a].height == H + 1]
+                rest = sorted([a for a in above if a not in first], key=lambda a: -len(w.by_abs[a].transactions))
+                chosen = (first[:2] + rest)[:max(per_chain, 2)]
+                chk.notes.append("chain %d: checkpoint horizon %d, altered blocks at heights %s" % (ci, H, [w.by_abs[a].height for a in chosen]))
         for a in chosen:
             blk = w.by_abs[a]
             raw = blk.serialize()
@@ -98,6 +113,7 @@ def run(pid, tier, replay=None):
             chk.distinct.add(("block", ci, a, len(raw), len(blk.transactions)))
             chk.sample({"block_bytes": len(raw), "transactions": len(blk.transactions), "mutations": len(events),
                         "example": events[len(events) // 3]})
+    sk.apply_cfg(cfg)
     chk.distinct.add(("mutations", chk.evaluations))
     verdicts, r2 = tracecheck.run("TraceTamper", traces, {}, ids=[t["id"] for t in traces], workers=4, timeout=3000)
     chk.states += r2.distinct
